@@ -8,7 +8,12 @@ NormalisedCounts, CorrFunc, and real small catalogs -> HistData.from_catalog); t
 model of the code (total - row - col + diag, ...) and with the specification (the statistic
 recomputed with patch k deleted from every array).  (b) symbolic traces of the real
 sample_patch_sum / get_array / NormalisedCounts.sample_patch_sum are re-proved equal to the
-specification by `ring` on every run.
+specification by `ring` on every run.  (c) samples with undefined entries: bins whose objects /
+pairs sit in ONE patch (leaving that patch out gives 0/0 or x/0), empty bins, negative radicands
+of the n(z) formula, and directly built CorrData / RedshiftData / HistData with NaN / +-inf cells:
+.covariance / .error are compared entry-wise with Model/Jackknife.v:cov_opt (for every pair of bins
+that is finite in ALL samples: the delete-one covariance over ALL N samples; Props/C03:
+C03_cov_opt_defined, C03_cov_code_columns, C03_cov_drop_refuted).
 """
 import numpy as np
 
@@ -29,6 +34,9 @@ TRUSTED = [
 ASSUMPTIONS = [
     "histogram rows are compared for max_workers=1 (row order under parallel completion is C05's subject)",
     "where an exact denominator is zero (empty normalisation) the quotient is undefined and nothing is compared",
+    "covariance entries of a bin that has a non-finite sample have no value in the property's formula: that the "
+    "implementation reports a non-finite float there is part of the model tie (ctx.disagree), not of the property",
+    "containers with a single sample (one patch) are outside the property (patches >= 2)",
 ]
 RULE = ("cases = one container (PatchedCounts | PatchedSumWeights | NormalisedCounts | CorrFunc with a subset of dr/rd/rr | "
         "triple of CorrFuncs for n(z) | catalog for a histogram) with its arrays; distinct by all array entries; "
@@ -94,6 +102,27 @@ def h_cov(ctx):
                      replay, case=case)
         if c & 8:
             ctx.fail("c03-covariance-not-psd", "v^T C v < 0 for a probe vector (code %d)" % c, replay, case=case)
+    return h
+
+
+def h_covopt(ctx):
+    def h(c, case, replay):
+        if c & 2:
+            ctx.fail("c03-covariance-defined-bins-not-jackknife", "some samples are undefined (non-finite) in some bin; for a "
+                     "pair of bins that is finite in ALL samples the covariance is not (N-1)/N sum_k (x_k - mean)(x_k - mean)^T "
+                     "over all N of the container's own samples (code %d)" % c, replay, case=case)
+        if c & 4:
+            ctx.fail("c03-covariance-asymmetric", "covariance matrix is not symmetric on the bins that are finite in all "
+                     "samples (code %d)" % c, replay, case=case)
+        if c & 8:
+            ctx.fail("c03-error-not-diag-root", "error is not the non-negative root of the covariance diagonal on the bins "
+                     "that are finite in all samples (code %d)" % c, replay, case=case)
+        if c & 16:
+            ctx.fail("c03-covariance-not-psd", "v^T C v < 0 for a probe vector supported on the bins that are finite in all "
+                     "samples (code %d)" % c, replay, case=case)
+        if c & 1:
+            ctx.disagree("c03_covopt_case", case, dict(code=c, replay=replay, detail="covariance / error are numbers on "
+                         "other entries than those where both bins are finite in all samples"))
     return h
 
 
@@ -177,13 +206,10 @@ def case_corr(ctx, batch, cov_batch, spec):
     ctx.count(key=("corr", repr(spec)), nontrivial=varies(cd.samples),
               kind="corr/%s/%s" % ("auto" if auto else "cross", "+".join(sub)))
     ctx.sample(dict(kind="corr", subset=sub, N=spec["N"], samples=np.asarray(cd.samples).tolist()), limit=3)
-    if jk.all_finite(cd.samples):
-        B = len(spec["edges"]) - 1
-        t = jk.cov_term(cd, spec.get("probes") or jk.probes_for(ctx.rng, B))
-        if t is not None:
-            cov_batch.add(t, h_cov(ctx), dict(kind="corr-cov", spec=spec))
-            ctx.count(key=("cov", repr(spec)), nontrivial=varies(cd.samples), kind="covariance")
-    else:
+    B = len(spec["edges"]) - 1
+    add_cov(ctx, cov_batch, cd, spec.get("probes") or jk.probes_for(ctx.rng, B), dict(kind="corr-cov", spec=spec),
+            ("cov", repr(spec)), "covariance/corr")
+    if not jk.all_finite(cd.samples):
         ctx.bump("impl_nonfinite_entries")
 
 
@@ -198,11 +224,76 @@ def case_nz(ctx, batch, cov_batch, spec):
     batch.add(jk.nz_term(dz, cross, ref, unk, nz), h_nz(ctx), dict(kind="nz", spec=spec))
     ctx.count(key=("nz", repr(spec)), nontrivial=varies(nz.samples),
               kind="nz/%s%s" % ("ref" if ref is not None else "", "+unk" if unk is not None else ""))
-    if jk.all_finite(nz.samples):
-        t = jk.cov_term(nz, jk.probes_for(ctx.rng, len(dz)))
-        if t is not None:
-            cov_batch.add(t, h_cov(ctx), dict(kind="nz-cov", spec=spec))
-            ctx.count(key=("cov-nz", repr(spec)), nontrivial=varies(nz.samples), kind="covariance")
+    add_cov(ctx, cov_batch, nz, jk.probes_for(ctx.rng, len(dz)), dict(kind="nz-cov", spec=spec), ("cov-nz", repr(spec)),
+            "covariance/nz")
+
+
+def undefined_profile(samples):
+    """-> (#bins finite in all samples, #bins non-finite in some but not all samples, #bins non-finite in all samples)"""
+    f = np.isfinite(np.asarray(samples, dtype=float))
+    full, none = f.all(axis=0), (~f).all(axis=0)
+    return int(full.sum()), int((~full & ~none).sum()), int(none.sum())
+
+
+def add_cov(ctx, cov_batch, sd, probes, replay, key, label):
+    """.covariance / .error of a SampledData against the model, computed from the container's OWN samples.
+    All samples finite: c03_cov_case.  Some sample non-finite (or a non-finite covariance): c03_covopt_case -
+    entry-wise, every pair of bins that is finite in all samples must be the covariance over ALL N samples."""
+    samples = np.asarray(sd.samples, dtype=float)
+    if samples.ndim != 2 or samples.shape[0] < 2 or samples.shape[1] < 1:
+        ctx.bump("cov_skipped_single_sample")      # one patch: outside the property
+        return
+    finite_in = jk.all_finite(samples)
+    try:
+        cov = np.atleast_2d(np.asarray(jk.quiet(lambda: sd.covariance), dtype=float))
+        err = np.atleast_1d(np.asarray(jk.quiet(lambda: sd.error), dtype=float))
+    except Exception as e:  # noqa: BLE001
+        if finite_in:
+            ctx.count(key=("cov-raised",) + tuple(key), kind=label + "/raised")
+            ctx.fail("c03-raises:%s" % type(e).__name__, ".covariance / .error raised %s: %s for finite samples"
+                     % (type(e).__name__, e), replay)
+        else:                                       # a refusal of undefined samples is not a violation
+            ctx.bump("cov_refused_undefined_samples")
+            ctx.log("covariance of samples with non-finite entries refused: %s: %s" % (type(e).__name__, e))
+        return
+    if cov.ndim != 2 or err.ndim != 1:
+        cov, err = cov.reshape((cov.shape[0], -1)), err.reshape(-1)
+    if finite_in and jk.all_finite(cov) and jk.all_finite(err):
+        term = "c03_cov_case %s %s %s %s" % (fq.qmat(samples), fq.qmat(cov), fq.qlist(err), fq.qmat(probes))
+        cov_batch.add(term, h_cov(ctx), replay)
+        ctx.count(key=key, nontrivial=varies(samples), kind=label)
+        return
+    term = "c03_covopt_case %s %s %s %s" % (jk.oqmat(samples), jk.oqmat(cov), jk.oqlist(err), fq.qmat(probes))
+    cov_batch.add(term, h_covopt(ctx), replay)
+    full, part, none = undefined_profile(samples)
+    fin = samples[:, np.isfinite(samples).all(axis=0)]
+    # non-trivial: an undefined bin next to a bin that is finite in all samples and varies between them
+    # (an estimate from fewer samples, or with another prefactor, is then a different number)
+    nontrivial = bool(full >= 1 and part + none >= 1 and np.any(fin != fin[0]))
+    ctx.count(key=key, nontrivial=nontrivial,
+              kind="%s/undefined:%s" % (label, "some-samples" if part else ("whole-bin" if none else "covariance-only")))
+    ctx.bump("cov_cases_with_undefined_samples")
+    if part and full and int(np.isfinite(samples).all(axis=1).sum()) >= 2:
+        ctx.bump("cov_cases_undefined_in_some_samples_with_2+_complete_samples")
+    ctx.sample(dict(kind="cov-undefined", label=label, samples=[[repr(float(x)) for x in r] for r in samples],
+                    covariance=[[repr(float(x)) for x in r] for r in cov]), limit=2)
+
+
+def case_direct(ctx, cov_batch, spec):
+    """a CorrData / RedshiftData / HistData built directly from (binning, data, samples)"""
+    cls = dict(CorrData=jk.CorrData, RedshiftData=jk.RedshiftData, HistData=jk.HistData)[spec["cls"]]
+    samples = np.array([[float(x) for x in r] for r in spec["samples"]], dtype=float)
+    data = np.array([float(x) for x in spec["data"]], dtype=float)
+    try:
+        sd = cls(jk.Binning(spec["edges"], closed="right"), data, samples)
+    except Exception as e:  # noqa: BLE001  a refusal of such values is not a violation
+        ctx.bump("direct_refused:%s" % type(e).__name__)
+        return
+    if not jk.same_bits(sd.samples, samples):
+        ctx.bump("direct_samples_altered")      # C04's subject; the covariance is compared with the container's own samples
+    B = samples.shape[1]
+    add_cov(ctx, cov_batch, sd, spec.get("probes") or jk.probes_for(ctx.rng, B), dict(kind="direct", spec=spec),
+            ("cov-direct", repr(spec["cls"]), repr(spec["samples"])), "covariance/direct-%s" % spec["cls"])
 
 
 def case_hist(ctx, batch, cov_batch, spec, tag):
@@ -222,10 +313,8 @@ def case_hist(ctx, batch, cov_batch, spec, tag):
     ctx.count(key=("hist", repr(rows), repr(edges)), nontrivial=loo != loo[::-1], kind="hist/N%d" % len(obs))
     ctx.sample(dict(kind="hist", per_patch_hist=[[float(x) for x in r] for r in obs],
                     impl_samples=np.asarray(h.samples).tolist()), limit=4)
-    t = jk.cov_term(h, jk.probes_for(ctx.rng, B))
-    if t is not None:
-        cov_batch.add(t, h_cov(ctx), dict(kind="hist-cov", spec=dict(spec, obs=None)))
-        ctx.count(key=("cov-hist", repr(rows)), nontrivial=varies(h.samples), kind="covariance")
+    add_cov(ctx, cov_batch, h, jk.probes_for(ctx.rng, B), dict(kind="hist-cov", spec=dict(spec, obs=None)),
+            ("cov-hist", repr(rows)), "covariance/hist")
     return h
 
 
@@ -244,6 +333,172 @@ def gen_corr(rng, small=False):
     auto = rng.random() < 0.5
     defined = [s for s in jk.SUBSETS if "dr" in s or ("rr" not in s)]
     return jk.corr_plain(jk.gen_binning(rng, B), N, jk.gen_corrfunc(rng, B, N, auto, mode, rng.choice(defined)))
+
+
+# ---- the class "a bin is undefined in some jackknife samples"
+UNDEF_PATTERNS = ("lonely-weight", "lonely-weight", "lonely-both-sides", "two-bins", "lonely+empty", "lonely-counts",
+                  "lonely-weight-keep-counts")
+
+
+def _as_arrays(p):
+    return dict(auto=bool(p["auto"]), counts=np.array(p["counts"], dtype=float), w1=np.array(p["w1"], dtype=float),
+                w2=np.array(p["w2"], dtype=float))
+
+
+def _lonely_weight(p, b, patch, side, zero_counts):
+    """all objects of bin b of catalog `side` (1, 2, or 3 = both) sit in `patch`"""
+    N = p["w1"].shape[1]
+    sides = (1, 2) if (side == 3 or p["auto"]) else (side,)
+    for sd in sides:
+        w = p["w%d" % sd]
+        keep = w[b, patch] if w[b, patch] != 0 else 3.0
+        w[b, :] = 0.0
+        w[b, patch] = keep
+        if zero_counts:                       # no objects, no pairs
+            for i in range(N):
+                if i != patch:
+                    if sd == 1:
+                        p["counts"][b, i, :] = 0.0
+                    else:
+                        p["counts"][b, :, i] = 0.0
+
+
+def _lonely_counts(p, b, patch):
+    """every pair of bin b involves `patch`: without it the count is 0 (a zero denominator of the estimator)"""
+    N = p["w1"].shape[1]
+    for i in range(N):
+        for j in range(N):
+            if i != patch and j != patch:
+                p["counts"][b, i, j] = 0.0
+
+
+def _empty_bin(p, b):
+    p["w1"][b, :] = 0.0
+    if p["auto"]:
+        p["w2"][b, :] = 0.0
+    p["counts"][b] = 0.0
+
+
+def make_undefined(rng, kinds, B, N, pattern):
+    """edit a pair-count description (dict of plain pc / None) so that some bins are populated from one patch only;
+    returns the edited plain description"""
+    arrs = {k: None if p is None else _as_arrays(p) for k, p in kinds.items()}
+    present = [k for k in ("dd",) + jk.KINDS if arrs[k] is not None]
+    denom = "rr" if arrs.get("rr") is not None else ("rd" if arrs.get("dr") is None else "dr")
+    b = rng.randrange(B)
+    patch = rng.randrange(N)
+
+    def some_kinds():
+        r = rng.random()
+        if r < 0.45:
+            return present                                    # a catalog shared by all pair counts
+        if r < 0.7:
+            return [denom]
+        return [k for k in present if rng.random() < 0.5] or [rng.choice(present)]
+    if pattern in ("lonely-weight", "lonely-weight-keep-counts"):
+        side = rng.choice([1, 2])
+        for k in some_kinds():
+            _lonely_weight(arrs[k], b, patch, side, pattern == "lonely-weight")
+    elif pattern == "lonely-both-sides":                      # two different samples of one bin are undefined
+        other = (patch + 1 + rng.randrange(N - 1)) % N if N > 1 else patch
+        for k in some_kinds():
+            _lonely_weight(arrs[k], b, patch, 1, True)
+            _lonely_weight(arrs[k], b, other, 2, True)
+    elif pattern == "two-bins":                               # two bins, each with its own lonely patch
+        b2 = (b + 1) % B
+        other = (patch + 1 + rng.randrange(N - 1)) % N if N > 1 else patch
+        ks = some_kinds()
+        for k in ks:
+            _lonely_weight(arrs[k], b, patch, rng.choice([1, 2]), True)
+            _lonely_weight(arrs[k], b2, other, rng.choice([1, 2]), True)
+    elif pattern == "lonely+empty":                           # one bin undefined in one sample, another in all
+        b2 = (b + 1) % B
+        for k in some_kinds():
+            _lonely_weight(arrs[k], b, patch, rng.choice([1, 2]), True)
+            if b2 != b:
+                _empty_bin(arrs[k], b2)
+    elif pattern == "lonely-counts":
+        _lonely_counts(arrs[denom], b, patch)
+    else:
+        raise KeyError(pattern)
+    return {k: jk.pc_plain(p) for k, p in arrs.items()}
+
+
+def gen_corr_undefined(rng, pattern=None, shape=None, auto=None):
+    B, N = shape or (rng.choice([1, 2, 2, 3, 3, 4, 5]), rng.choice([2, 3, 3, 4, 5, 6, 7, 8]))
+    pattern = pattern or rng.choice(UNDEF_PATTERNS)
+    mode = rng.choice(["dense", "dense", "dyadic"])
+    auto = (rng.random() < 0.4) if auto is None else auto
+    defined = [s for s in jk.SUBSETS if "dr" in s or ("rr" not in s)]
+    spec = jk.corr_plain(jk.gen_binning(rng, B), N, jk.gen_corrfunc(rng, B, N, auto, mode, rng.choice(defined)))
+    spec["kinds"] = make_undefined(rng, spec["kinds"], B, N, pattern)
+    spec["undefined"] = pattern
+    return spec
+
+
+def gen_nz_undefined(rng):
+    """n(z) from a cross-correlation with a lonely bin (and autocorrelations that may have one of their own)"""
+    spec = jk.gen_nz_spec(rng)
+    B, N = len(spec["cross"]["edges"]) - 1, spec["cross"]["N"]
+    which = rng.choice(["cross", "cross", "ref", "unk"])
+    if spec[which] is None:
+        which = "cross"
+    pattern = rng.choice(UNDEF_PATTERNS)
+    spec[which]["kinds"] = make_undefined(rng, spec[which]["kinds"], B, N, pattern)
+    spec["undefined"] = "%s:%s" % (which, pattern)
+    return spec
+
+
+NONFINITE = ("nan", "nan", "nan", "inf", "-inf")
+DIRECT_PATTERNS = ("cell", "cell", "column-cells", "column", "row", "scatter", "inf-mixed", "cell+column")
+
+
+def gen_direct(rng, pattern=None, cls=None):
+    """(binning, data, samples) for a directly built container: small dyadic values with non-finite cells"""
+    pattern = pattern or rng.choice(DIRECT_PATTERNS)
+    B = rng.choice([1, 2, 3, 3, 4, 5])
+    N = rng.choice([2, 3, 4, 4, 5, 6, 8])
+    scale = rng.choice([1.0, 8.0, 1024.0])
+    vals = [[rng.randrange(-96, 97) / scale for _ in range(B)] for _ in range(N)]
+    cells = []
+    if pattern == "cell":
+        cells = [(rng.randrange(N), rng.randrange(B))]
+    elif pattern == "column-cells":                           # several samples of one bin
+        b = rng.randrange(B)
+        cells = [(k, b) for k in rng.sample(range(N), rng.randrange(1, N))]
+    elif pattern == "column":                                 # a bin undefined in all samples
+        b = rng.randrange(B)
+        cells = [(k, b) for k in range(N)]
+    elif pattern == "row":                                    # one sample undefined in all bins
+        k = rng.randrange(N)
+        cells = [(k, b) for b in range(B)]
+    elif pattern == "scatter":                                # different bins in different samples
+        cells = [(rng.randrange(N), rng.randrange(B)) for _ in range(rng.randrange(2, 4))]
+    elif pattern == "inf-mixed":
+        b = rng.randrange(B)
+        cells = [(k, b) for k in rng.sample(range(N), min(N, 2))]
+    elif pattern == "cell+column":
+        b = rng.randrange(B)
+        cells = [(k, b) for k in range(N)] + [(rng.randrange(N), (b + 1) % B)]
+    out = [[x for x in r] for r in vals]
+    for n, (k, b) in enumerate(cells):
+        out[k][b] = ("inf", "-inf")[n % 2] if pattern == "inf-mixed" else rng.choice(NONFINITE)
+    return dict(cls=cls or rng.choice(["CorrData", "RedshiftData", "HistData"]), edges=jk.gen_binning(rng, B),
+                data=[x for x in out[0]], samples=out, pattern=pattern)
+
+
+def undefined_probe(ctx, b_corr, b_nz, b_cov):
+    """deterministic members of the class (independent of VERIF_SEED): every pattern once through CorrFunc.sample(),
+    a sparse last bin whose reference objects sit in one of 8 patches through RedshiftData.from_corrfuncs(), and every
+    cell pattern once per directly built container class"""
+    import random
+    prng = random.Random(30303)
+    for pattern in dict.fromkeys(UNDEF_PATTERNS):
+        case_corr(ctx, b_corr, b_cov, gen_corr_undefined(prng, pattern, shape=(3, 5)))
+    cross = gen_corr_undefined(prng, "lonely-weight", shape=(5, 8), auto=False)
+    case_nz(ctx, b_nz, b_cov, dict(cross=cross, ref=None, unk=None, undefined="cross:lonely-weight"))
+    for n, pattern in enumerate(dict.fromkeys(DIRECT_PATTERNS)):
+        case_direct(ctx, b_cov, gen_direct(prng, pattern, ("CorrData", "RedshiftData", "HistData")[n % 3]))
 
 
 def exhaustive_binary(ctx, batch):
@@ -319,6 +574,7 @@ def run(ctx):
     b_hist = jk.Batch(ctx, "Cases_C03_hist", shard=80)
     f10b_probe(ctx, b_hist, b_cov)
     large_n_probe(ctx)
+    undefined_probe(ctx, b_corr, b_nz, b_cov)
     small = not ctx.quick()          # thorough: many cases, mostly small shapes
     for _ in range(ctx.n(50, 900)):
         case_sps(ctx, b_raw, gen_single(rng, "sps", small and rng.random() < 0.7))
@@ -330,6 +586,12 @@ def run(ctx):
         case_corr(ctx, b_corr, b_cov, gen_corr(rng, small and rng.random() < 0.7))
     for _ in range(ctx.n(30, 450)):
         case_nz(ctx, b_nz, b_cov, jk.gen_nz_spec(rng, small and rng.random() < 0.7))
+    for _ in range(ctx.n(30, 450)):
+        case_corr(ctx, b_corr, b_cov, gen_corr_undefined(rng))
+    for _ in range(ctx.n(12, 150)):
+        case_nz(ctx, b_nz, b_cov, gen_nz_undefined(rng))
+    for _ in range(ctx.n(40, 500)):
+        case_direct(ctx, b_cov, gen_direct(rng))
     for i in range(ctx.n(40, 450)):
         N = rng.choice([2, 3, 3, 4, 5, 7])
         B = rng.choice([1, 2, 3, 4])
@@ -358,6 +620,8 @@ def replay(ctx, body):
         case_corr(ctx, b, bc, spec)
     elif kind in ("nz", "nz-cov"):
         case_nz(ctx, b, bc, spec)
+    elif kind == "direct":
+        case_direct(ctx, bc, spec)
     elif kind in ("hist", "hist-cov"):
         from fractions import Fraction
         if spec.get("obs"):
